@@ -144,7 +144,7 @@ func vClassify(msg jsonrpc.Message) (kind, id, method, cref, ref string) {
 			ref = string(mm[1])
 		}
 		if m.ID.IsValid() {
-			kind, id = "call", fmt.Sprint(m.ID.Raw())
+			kind, id = "call", vIDText(m.ID)
 		} else {
 			kind = "notif"
 			if m.Method == "notifications/cancelled" {
@@ -156,9 +156,17 @@ func vClassify(msg jsonrpc.Message) (kind, id, method, cref, ref string) {
 			}
 		}
 	case *jsonrpc.Response:
-		kind, id = "resp", fmt.Sprint(m.ID.Raw())
+		kind, id = "resp", vIDText(m.ID)
 	}
 	return
+}
+
+// vIDText renders a JSON-RPC id the way it looks on the wire, so that the integer 7 and the string "7" stay apart.
+func vIDText(id jsonrpc.ID) string {
+	if s, ok := id.Raw().(string); ok {
+		return strconv.Quote(s)
+	}
+	return fmt.Sprint(id.Raw())
 }
 
 func (c *vConn) Write(ctx context.Context, msg jsonrpc.Message) error {
@@ -404,7 +412,7 @@ type vRun struct {
 	csMu    sync.Mutex
 	csWait  []*vCSWaiter
 	csRnd   *rand.Rand
-	reqID map[string]int64         // request tag -> wire id
+	reqID map[string]string        // request tag -> wire id as JSON text (7 or "7")
 	answered map[string]bool
 	nextReq int64
 	hbase int // number of writes performed by the handshake
@@ -511,7 +519,7 @@ func (r *vRun) setup(ctx context.Context) error {
 			defer r.mu.Unlock()
 			best := ""
 			for tag, wid := range r.reqID {
-				if fmt.Sprint(wid) == id && (best == "" || !strings.HasPrefix(tag, "d")) {
+				if wid == id && (best == "" || !strings.HasPrefix(tag, "d")) {
 					// a duplicate (d*) never gets a response of its own while the original is in flight
 					if r.answered[tag] {
 						continue
@@ -773,7 +781,7 @@ func (r *vRun) step(st []any) {
 		} else if strings.HasPrefix(sel, "resp:") {
 			r.mu.Lock()
 			if id, ok := r.reqID[strings.TrimPrefix(sel, "resp:")]; ok {
-				sel = "resp:" + fmt.Sprint(id)
+				sel = "resp:" + id
 			}
 			r.mu.Unlock()
 		} else if strings.HasPrefix(sel, "notif:cancelled:") {
@@ -819,26 +827,35 @@ func (r *vRun) step(st []any) {
 		if op == "reqdup" {
 			kind = "call"
 		}
-		if n, err := strconv.Atoi(strings.TrimLeft(tag, "rdn")); err == nil {
+		if n, err := strconv.Atoi(strings.TrimLeft(tag, "rdns")); err == nil {
 			wid = int64(n)
 		} else {
 			r.nextReq++
 			wid = 5100 + r.nextReq
 		}
+		// s<i>: the same number as r<i>, but sent as a JSON string ("1" and 1 are different ids)
+		strID := strings.HasPrefix(tag, "s")
+		idText := fmt.Sprint(wid)
+		if strID {
+			idText = strconv.Quote(idText)
+		}
 		if kind == "call" {
-			r.reqID[tag] = wid
+			r.reqID[tag] = idText
 		}
 		r.mu.Unlock()
 		var msg *jsonrpc.Request
 		if kind == "call" {
 			id, _ := jsonrpc2.MakeID(float64(wid))
+			if strID {
+				id, _ = jsonrpc2.MakeID(fmt.Sprint(wid))
+			}
 			if r.cs != nil {
 				msg = &jsonrpc.Request{ID: id, Method: "sampling/createMessage", Params: json.RawMessage(
 					`{"messages":[{"role":"user","content":{"type":"text","text":"hi"}}],"maxTokens":5,"systemPrompt":"` + tag + `"}`)}
 			} else {
 				msg = &jsonrpc.Request{ID: id, Method: "tools/call", Params: json.RawMessage(`{"name":"vtool","arguments":{"r":"` + tag + `"}}`)}
 			}
-			r.log.emit("rd.deliver", "kind", "call", "id", fmt.Sprint(wid), "r", tag, "dup", op == "reqdup")
+			r.log.emit("rd.deliver", "kind", "call", "id", idText, "r", tag, "dup", op == "reqdup")
 		} else {
 			msg = &jsonrpc.Request{Method: "notifications/progress", Params: json.RawMessage(`{"progressToken":"tok","progress":1,"message":"` + tag + `"}`)}
 			r.log.emit("rd.deliver", "kind", "notif", "id", "", "r", tag, "dup", false)
@@ -866,7 +883,7 @@ func (r *vRun) step(st []any) {
 		}
 		id, _ := jsonrpc2.MakeID(float64(900001))
 		r.mu.Lock()
-		r.reqID["init"] = 900001
+		r.reqID["init"] = "900001"
 		r.mu.Unlock()
 		r.log.emit("rd.deliver", "kind", "init", "id", "900001", "r", "init", "dup", false)
 		r.conn.rd <- vRead{msg: &jsonrpc.Request{ID: id, Method: "initialize", Params: json.RawMessage(
@@ -878,14 +895,18 @@ func (r *vRun) step(st []any) {
 			desc: []any{"kind", "notif", "k", "", "r", "inited"}}
 	case "pcancel":
 		var wid int64 = 666000
-		if n, err := strconv.Atoi(strings.TrimLeft(arg(1), "rd")); err == nil {
+		if n, err := strconv.Atoi(strings.TrimLeft(arg(1), "rds")); err == nil {
 			wid = int64(n)
 		}
 		if arg(1) == "init" {
 			wid = 900001
 		}
-		r.log.emit("rd.deliver", "kind", "cancel", "id", fmt.Sprint(wid), "r", arg(1), "dup", false)
-		r.conn.rd <- vRead{msg: &jsonrpc.Request{Method: "notifications/cancelled", Params: json.RawMessage(fmt.Sprintf(`{"requestId":%d,"reason":"verif"}`, wid))},
+		idText := fmt.Sprint(wid)
+		if strings.HasPrefix(arg(1), "s") {
+			idText = strconv.Quote(idText) // the notice names the string id
+		}
+		r.log.emit("rd.deliver", "kind", "cancel", "id", idText, "r", arg(1), "dup", false)
+		r.conn.rd <- vRead{msg: &jsonrpc.Request{Method: "notifications/cancelled", Params: json.RawMessage(fmt.Sprintf(`{"requestId":%s,"reason":"verif"}`, idText))},
 			desc: []any{"kind", "cancel", "k", "", "r", arg(1)}}
 	case "hret":
 		ch := r.gate(arg(1))
@@ -1219,7 +1240,7 @@ func vRunScenario(t *testing.T, l *vLog, sc *vScenario) {
 			l.mu.Lock()
 			l.start = time.Now()
 			l.mu.Unlock()
-			r := &vRun{t: t, sc: sc, log: l, calls: map[string]*vCallState{}, rel: map[string]chan struct{}{}, reqID: map[string]int64{}, answered: map[string]bool{}}
+			r := &vRun{t: t, sc: sc, log: l, calls: map[string]*vCallState{}, rel: map[string]chan struct{}{}, reqID: map[string]string{}, answered: map[string]bool{}}
 			r.csRnd = rand.New(rand.NewPCG(sc.CSSeed, 77))
 			jsonrpc2.VerifEnter = r.csEnter
 			if os.Getenv("VERIF_CS") != "0" {
@@ -1250,7 +1271,7 @@ func vRandomScenario(rnd *rand.Rand, i int) *vScenario {
 	if rnd.IntN(8) == 0 {
 		sc.Logging = true
 	}
-	listens, bads := 0, 0
+	listens, bads, sreqs := 0, 0, 0
 	for len(sc.Steps) < n {
 		if bads < 2 && rnd.IntN(24) == 0 {
 			bads++
@@ -1280,6 +1301,13 @@ func vRandomScenario(rnd *rand.Rand, i int) *vScenario {
 			sc.Steps = append(sc.Steps, []any{"resp", liveCalls[rnd.IntN(len(liveCalls))], []string{"ok", "ok", "err"}[rnd.IntN(3)]})
 		case k < 9 && len(liveCalls) > 0:
 			sc.Steps = append(sc.Steps, []any{"cancel", liveCalls[rnd.IntN(len(liveCalls))]})
+		case k < 12 && sreqs < 2 && rnd.IntN(4) == 0:
+			// a call whose id is the JSON string "<n>": a different id from the integer <n> of r<n>
+			sreqs++
+			q := fmt.Sprintf("s%d", sreqs)
+			liveCallReqs = append(liveCallReqs, q)
+			liveReqs = append(liveReqs, q)
+			sc.Steps = append(sc.Steps, []any{"req", q, "call"})
 		case k < 12 && creqs < 3:
 			creqs++
 			q := fmt.Sprintf("r%d", creqs)
